@@ -65,6 +65,48 @@ type watchdog struct {
 	req, ack *baton
 	stop     bool
 	action   func() // what to do when released (set before the goroutine starts; reads only pre-published data)
+
+	// instrumented build only (lock acquisitions of goja code are scheduling points): the action may be suspended at its
+	// first lock acquisition, the owner goroutine runs on for a while and resumes it later
+	gid    uint64
+	armed  bool
+	parked bool
+}
+
+//go:norace
+func (w *watchdog) setGID(id uint64) { w.gid = id }
+
+// arm: the next release() returns as soon as the action reaches a lock acquisition (if it does), leaving it suspended there.
+//
+//go:norace
+func (w *watchdog) arm() { w.armed = true }
+
+//go:norace
+func (w *watchdog) isParked() bool { return w.parked }
+
+// atLockAcquisition is called on the watchdog's own goroutine (from the sync-point hook).
+//
+//go:norace
+func (w *watchdog) atLockAcquisition() {
+	if !w.armed {
+		return
+	}
+	w.armed = false
+	w.parked = true
+	w.ack.signal()
+	w.req.wait()
+}
+
+// resume lets a suspended action run to its end.
+//
+//go:norace
+func (w *watchdog) resume() {
+	if !w.parked {
+		return
+	}
+	w.parked = false
+	w.req.signal()
+	w.ack.wait()
 }
 
 func startWatchdog(action func()) *watchdog {
@@ -80,6 +122,7 @@ func (w *watchdog) stopped() bool { return w.stop }
 func (w *watchdog) setStop() { w.stop = true }
 
 func (w *watchdog) loop() {
+	w.setGID(curGoroutineID())
 	for {
 		w.req.wait()
 		if w.stopped() {
@@ -98,6 +141,8 @@ func (w *watchdog) release() {
 }
 
 func (w *watchdog) shutdown() {
+	w.resume()
+	w.armed = false
 	w.setStop()
 	w.req.signal()
 	w.ack.wait()
